@@ -57,6 +57,34 @@ def _current():
         return json.load(f)
 
 
+def turnstile_batch(run, i, preds, w, wait):
+    """Turnstile for the batch-layer families (large batches, stragglers that are overtaken by many tasks): as
+    exec_tasks.turnstile, but a task gives way only when the real execution is stuck - its predecessor has not started, all
+    w workers hold unfinished tasks and every one of those is itself waiting for an unfinished predecessor - or after
+    `wait` seconds.  -> True iff the predecessor finished first."""
+    rd = T.rundir(LOGDIR, run)
+    open(os.path.join(rd, f"s{i}"), "w").close()
+    pred = preds.get(i, 0)
+    if not pred:
+        return True
+    m = os.path.join(rd, f"e{pred}")
+    t_end = time.monotonic() + wait
+    k = 0
+    while not os.path.exists(m):
+        k += 1
+        if k % 20 == 0:
+            if time.monotonic() > t_end:
+                return False
+            names = set(os.listdir(rd))
+            if f"s{pred}" not in names:
+                running = [int(x[1:]) for x in names if x[0] == "s" and "e" + x[1:] not in names]
+                if len(running) >= w and all(preds.get(j, 0) and f"e{preds[j]}" not in names for j in running):
+                    return os.path.exists(m)
+        time.sleep(0.0005)
+    time.sleep(T.GAP_S)
+    return True
+
+
 if LOGDIR and not getattr(_dq, "_verif_hooked", False):
     _orig = _dq._simulate_wrapper
 
@@ -67,13 +95,14 @@ if LOGDIR and not getattr(_dq, "_verif_hooked", False):
         except Exception:  # noqa: BLE001 - not one of ours: behave exactly like the original
             return _orig(circuit, kwargs)
         run = cur["run"]
-        if cur.get("wait"):
-            T.WAIT_S = float(cur["wait"])       # large batches: an order that is infeasible in the real pool must not stall the run
         rng = kwargs.get("rng")
         seed = int(rng) if isinstance(rng, (int, np.integer)) else -1
         T.log_event(LOGDIR, {"run": run, "e": "s", "i": i, "t": time.monotonic_ns(), "seed": seed})
         res = _orig(circuit, kwargs)
-        ok = T.turnstile(LOGDIR, run, i, pred, cur["w"])
+        if cur.get("wait"):     # batch-layer families
+            ok = turnstile_batch(run, i, {a: b for a, b in cur["tasks"].values()}, cur["w"], float(cur["wait"]))
+        else:
+            ok = T.turnstile(LOGDIR, run, i, pred, cur["w"])
         T.finish(LOGDIR, run, i, digest(res), ok)
         return res
 
